@@ -158,8 +158,8 @@ class MessageDispatcher(object):
         """
         if isinstance(event_type, type):
             event_type = event_type.__name__
-        if event_type in self.registered_events:
-            raise Exception("duplicate function registered for %s" % event_type)
+        if event_type not in self.registered_events:
+            raise Exception("no function registered for %s" % event_type)
         del self.registered_events[event_type]
 
     def dispatch(self):
